@@ -70,7 +70,7 @@ class GreensFunctionCache:
         path = self.cache_dir / f"{key}.npz"
         if path.exists():
             logger.debug("Cache hit: %s", key[:12])
-            _verif.emit("cache_get", key=key[:16], exists=True)
+            _verif.emit("cache_get", key=key[:16], exists=True, dir=str(self.cache_dir))
             try:
                 with np.load(path) as data:
                     grid = (data["X"], data["Y"], data["Z"])
@@ -79,10 +79,10 @@ class GreensFunctionCache:
                 # truncated or corrupt file (e.g. an interrupted run): treat as a miss
                 logger.warning("Ignoring unreadable cache entry %s: %s", key[:12], e)
                 return None
-            _verif.emit("cache_hit", key=key[:16])
+            _verif.emit("cache_hit", key=key[:16], dir=str(self.cache_dir))
             return grid, conc, flx
         logger.debug("Cache miss: %s", key[:12])
-        _verif.emit("cache_get", key=key[:16], exists=False)
+        _verif.emit("cache_get", key=key[:16], exists=False, dir=str(self.cache_dir))
         return None
 
     def put(
@@ -105,9 +105,9 @@ class GreensFunctionCache:
         )
         path = self.cache_dir / f"{key}.npz"
         X, Y, Z = grid
-        _verif.emit("cache_put_begin", key=key[:16])
+        _verif.emit("cache_put_begin", key=key[:16], dir=str(self.cache_dir))
         np.savez(path, X=X, Y=Y, Z=Z, conc=conc, flx=flx)
-        _verif.emit("cache_put_end", key=key[:16])
+        _verif.emit("cache_put_end", key=key[:16], dir=str(self.cache_dir))
         logger.debug("Cached: %s", key[:12])
 
     def clear(self):
